@@ -616,6 +616,26 @@ class Exec:
             else: raise Undecided('%s() of %s' % (which, type(v).__name__))
             st.assume.append(z3.Implies(nz()[0], B) if which == 'any' else z3.Implies(B, nz()[0]))
             return BoolV(B)
+        if fn in ('max', 'min') and len(n.args) == 2 and not kw:
+            a_, b_ = self.ev(n.args[0]), self.ev(n.args[1])
+            if isinstance(a_, IntV) and isinstance(b_, IntV):
+                c_ = (a_.t >= b_.t) if fn == 'max' else (a_.t <= b_.t)
+                return IntV(z3.simplify(z3.If(c_, a_.t, b_.t)))
+            raise Undecided('%s() of non-integers' % fn)
+        if fn == 'abs' and len(n.args) == 1:
+            a_ = self.ev(n.args[0])
+            if isinstance(a_, IntV): return IntV(z3.simplify(z3.If(a_.t >= 0, a_.t, -a_.t)))
+            if isinstance(a_, ObjV):
+                cal = self.callees.get('UTPM.__abs__')
+                if cal is not None and hasattr(cal, 'apply_functional'): return cal.apply_functional(self, {'self': a_}, 'UTPM.__abs__')
+            raise Undecided('abs() of %s' % type(a_).__name__)
+        if fn == 'numpy.where' and len(n.args) == 3 and not kw:
+            m_, a_, b_ = self.ev(n.args[0]), self.ev(n.args[1]), self.ev(n.args[2])
+            if isinstance(m_, BoolV) and is_scalar(a_) and is_scalar(b_):
+                if isinstance(a_, IntV) and isinstance(b_, IntV): return IntV(z3.If(m_.t, a_.t, b_.t))
+                ta = a_.t if isinstance(a_, Cell) else alg.of_int(a_.t); tb = b_.t if isinstance(b_, Cell) else alg.of_int(b_.t)
+                return Cell(z3.If(m_.t, ta, tb))
+            raise Undecided('numpy.where of these operands')
         if fn == 'tuple' and len(n.args) == 1:
             v = self.ev(n.args[0])
             if isinstance(v, tuple): return v
